@@ -145,7 +145,7 @@ def relabelH : Handler := fun j => do
   let internal := internalPaths paths
   let r := names.map (relabelName internal)
   let ls : List Label := r.map fun n => { name := n, spans := [] }
-  pure (Json.mkObj [("names", jNames r), ("direct", jNames (directOf ls)),
+  pure (Json.mkObj [("names", jNames r), ("direct", jNames (directOf paths ls)),
     ("search", Json.arr (names.map fun n => match searchImport? n with
       | some g => jName g | none => Json.null).toArray)])
 
